@@ -1,5 +1,5 @@
 """Correspondence for the source-to-Lean translator (gen/py2lean.py) and its run-time library (lean/Asn1/PyLite.lean):
-the *translation* of a function (driver ops KTAG, KLEN, KTOBYTES, KOIDENC, KOIDDEC, KTIME, KREAL, KREALDEC, KDECLEN, KDECTAG, KOCTCHUNK, KSETOF, KCERBOOLENC, KBERBOOLENC, KINTENC, KWREAD, KWMARK, KREADTURN, KEOSTURN, PYBIO, KCRANGE, KCSIZE, KCSINGLE, KCALPHA, KCERBOOL, KWRAP, KINTDEC; PYFROMBYTES) and the function itself in /repo are
+the *translation* of a function (driver ops KTAG, KLEN, KTOBYTES, KOIDENC, KOIDDEC, KTIME, KREAL, KREALDEC, KDECLEN, KDECTAG, KOCTCHUNK, KSETOF, KCERBOOLENC, KBERBOOLENC, KINTENC, KWREAD, KWMARK, KREADTURN, KEOSTURN, PYBIO, KCRANGE, KCSIZE, KCSINGLE, KCALPHA, KCERBOOL, KWRAP, KINTDEC, KBITSDEC, KBITSFROM; PYFROMBYTES) and the function itself in /repo are
 run on the same arguments; the Python builtins PyLite transcribes (PYOP) are compared with CPython.
 
 A disagreement means the translator or PyLite misrepresents the code (machinery fault to repair) - it is reported as a
@@ -47,7 +47,7 @@ def _py(f, *a, **kw):
     return ('ok', r)
 
 
-def check(rep, drv, seed, n=400, which=('encodeTag', 'encodeLength', 'toBytes', 'oidEncode', 'oidDecode', 'timeCanon', 'realBin', 'realDec', 'decodeLength', 'cerBool', 'wrapTags', 'intDecode', 'decodeTag', 'octetChunks', 'constraintLeaves', 'setOfSort', 'streamWrapper', 'readTurn')):
+def check(rep, drv, seed, n=400, which=('encodeTag', 'encodeLength', 'toBytes', 'oidEncode', 'oidDecode', 'timeCanon', 'realBin', 'realDec', 'decodeLength', 'cerBool', 'wrapTags', 'intDecode', 'decodeTag', 'octetChunks', 'constraintLeaves', 'setOfSort', 'streamWrapper', 'readTurn', 'bitsDecode')):
     """returns number of cases compared"""
     from pyasn1.codec.ber import encoder as benc, decoder as bdec
     from pyasn1.compat import integer
@@ -728,6 +728,42 @@ def check(rep, drv, seed, n=400, which=('encodeTag', 'encodeLength', 'toBytes', 
                     return [int(c.args[0])]
                 return ['no-value']
             cmp_('intDecode', 'KINTDEC ' + ' '.join(str(b) for b in body), _py(real))
+    if 'bitsDecode' in which:
+        import io as _io4
+
+        class CapB(Exception):
+            pass
+        bdec_ = bdec.BitStringPayloadDecoder()
+
+        def capture_b(asn1Spec, tagSet, value, **options):
+            raise CapB(value)
+        bdec_._createComponent = capture_b
+        fixed_b = [b'', b'\x00', b'\x01', b'\x07', b'\x08', b'\xff', b'\x00\x00', b'\x07\x80', b'\x07\xff', b'\x08\xff', b'\x00\xff\xff',
+                   b'\x04\x0f\xf0', b'\x01\x00\x00\x00', b'\x06' + b'\xaa' * 40]
+        for i in range(n):
+            if i < len(fixed_b):
+                body = fixed_b[i]
+            else:
+                body = bytes([rng.choice([0, 0, 1, 3, 7, 7, 8, 9, 128, 255, rng.randrange(256)])]) + bytes(
+                    rng.choice([0, 0xff, 0x80, 1, rng.randrange(256)]) for _ in range(rng.choice([0, 0, 1, 1, 2, 3, 8, 9, 40])))
+                if rng.random() < 0.05:
+                    body = b''
+
+            def real_b():
+                try:
+                    for x in bdec_.valueDecoder(_io4.BytesIO(body), None, tagSet=univ.BitString.tagSet, length=len(body)):
+                        pass
+                except CapB as c:
+                    return [int(c.args[0]), len(c.args[0])]
+                return ['no-value']
+            cmp_('bitsDecode', 'KBITSDEC ' + ' '.join(str(b) for b in body), _py(real_b))
+            pad = rng.choice([0, 1, 7, 8, 9, 15, 16, 17, rng.randrange(0, 400)])
+            octs = body[1:]
+
+            def real_f():
+                v = univ.BitString.fromOctetString(octs, internalFormat=True, padding=pad)
+                return [int(v), len(v)]
+            cmp_('bitsFromOctets', 'KBITSFROM %d %s' % (pad, ' '.join(str(b) for b in octs)), _py(real_f))
     rep.count('kernel_correspondence', done)
     return done + nonlocal_done[0]
 
